@@ -181,9 +181,25 @@ class _Proxy:
         self._fault = None
         ln = len(data)
         if v in ("torn", "short-error"):
-            cut = {"zero": 0, "one": min(1, ln), "half": ln // 2, "allbut1": max(ln - 1, 0)}[f.get("cut", "half")]
-            self._f.write(data[:cut])
-            self._f.flush()
+            ck = f.get("cut", "half")
+            raw = None
+            if ck == "midchar":
+                # a write is torn between BYTES: in a text file that can be inside a multi-byte character.  Cut after the lead
+                # byte of the first non-ASCII character (no such character: cut in half)
+                if isinstance(data, str) and hasattr(self._f, "buffer"):
+                    b = data.encode(getattr(self._f, "encoding", None) or "utf-8")
+                    i = next((k for k, c in enumerate(b) if c >= 0x80), None)
+                    if i is not None:
+                        raw = b[:i + 1]
+                ck = "half"
+            if raw is not None:
+                self._f.flush()
+                self._f.buffer.write(raw)
+                self._f.buffer.flush()
+            else:
+                cut = {"zero": 0, "one": min(1, ln), "half": ln // 2, "allbut1": max(ln - 1, 0)}[ck]
+                self._f.write(data[:cut])
+                self._f.flush()
             S.fired.append((self._n, "open-w", v + ":" + f.get("cut", "half")))
             if v == "torn":
                 _flush_fired()
